@@ -110,8 +110,20 @@ def ev(e, env):
 
 def run_straight_line(fnode, env):
     """Execute assignments / augmented assignments of a straight-line body."""
+    return run_stmts(fnode.body, env)
+
+
+def _target_name(tgt):
+    if isinstance(tgt, ast.Name):
+        return tgt.id
+    if isinstance(tgt, ast.Attribute) and isinstance(tgt.value, ast.Name) and tgt.value.id == "self":
+        return "self." + tgt.attr
+    raise NotPoly("target " + norm(tgt))
+
+
+def run_stmts(stmts, env):
     env = dict(env)
-    for s in fnode.body:
+    for s in stmts:
         if isinstance(s, ast.Expr) and isinstance(s.value, ast.Constant):
             continue
         if isinstance(s, ast.Return):
@@ -122,12 +134,17 @@ def run_straight_line(fnode, env):
         if not isinstance(s, (ast.Assign, ast.AugAssign)):
             raise NotPoly("statement kind %s" % type(s).__name__)
         tgt = s.target if isinstance(s, ast.AugAssign) else s.targets[0]
-        if isinstance(tgt, ast.Name):
-            name = tgt.id
-        elif isinstance(tgt, ast.Attribute) and isinstance(tgt.value, ast.Name) and tgt.value.id == "self":
-            name = "self." + tgt.attr
-        else:
-            raise NotPoly("target " + norm(tgt))
+        if isinstance(s, ast.Assign) and len(s.targets) != 1:
+            raise NotPoly("chained assignment " + norm(s))
+        if isinstance(tgt, (ast.Tuple, ast.List)):
+            # a, b = c, d : all right-hand sides are evaluated first
+            if isinstance(s, ast.Assign) and isinstance(s.value, (ast.Tuple, ast.List)) and len(s.value.elts) == len(tgt.elts):
+                vals = [ev(x, env) for x in s.value.elts]
+                for t, v in zip(tgt.elts, vals):
+                    env[_target_name(t)] = v
+                continue
+            raise NotPoly("unpacking " + norm(s))
+        name = _target_name(tgt)
         val = ev(s.value, env)
         if isinstance(s, ast.AugAssign):
             if name not in env:
